@@ -16,3 +16,4 @@ def run(rep, tier, seed, scratch):
     for u in (ComputeXn(), Newton(), Transform()):
         run_unit(rep, u, u.gen(g, tier), scratch)
     camp_props.run_single(rep, 'C05', tier, seed, 40, 300, allow={'newton_type': ['Simplified', 'Full', 'ActiveSet', 'Globalized']})
+    camp_props.run_default_start(rep, tier, seed)
